@@ -6,7 +6,7 @@ import ast
 from typing import Dict, List, Optional, Set, Tuple
 
 from .. import oneshot
-from ..core import AnalysisError, ClassInfo, FuncInfo, Repo, attr_chain, call_name, unparse, walk_no_nested
+from ..core import ct, AnalysisError, ClassInfo, FuncInfo, Repo, attr_chain, call_name, unparse, walk_no_nested
 from ..report import Ctx
 from ..skeleton import TRUE, Env, T, func_term, show
 from ..skelrules import check_skeleton, spec_from_src
@@ -521,7 +521,7 @@ def rule_prime(ctx: Ctx) -> None:
     # small cases and the 2/3 filter
     small = [st for st in pre if isinstance(st, ast.If)]
     txt = [(unparse(st.test), unparse(st.body[0]) if len(st.body) == 1 else "") for st in small]
-    if (f"{n} <= 3", f"return {n} > 1") in txt or (f"{n} < 4", f"return {n} > 1") in txt or (f"{n} <= 3", f"return {n} >= 2") in txt:
+    if any((ct(a), ct(b)) in txt for a in (f"{n} <= 3", f"{n} < 4") for b in (f"return {n} > 1", f"return {n} >= 2")):
         ctx.ok("C11-PR", f.where, "n <= 3: prime iff n > 1", small[0], f)
     else:
         raise AnalysisError(f"{f.where}: small-case branch not recognised")
@@ -598,7 +598,7 @@ def _prime_range_form(ctx: Ctx, f: FuncInfo, lp: ast.For) -> None:
     pre, post = body[: body.index(lp)], body[body.index(lp) + 1:]
     small = [st for st in pre if isinstance(st, ast.If)]
     txt = [(unparse(st.test), unparse(st.body[0]) if len(st.body) == 1 else "") for st in small]
-    if not ((f"{n} <= 3", f"return {n} > 1") in txt or (f"{n} < 4", f"return {n} > 1") in txt or (f"{n} <= 3", f"return {n} >= 2") in txt):
+    if not any((ct(a), ct(b)) in txt for a in (f"{n} <= 3", f"{n} < 4") for b in (f"return {n} > 1", f"return {n} >= 2")):
         raise AnalysisError(f"{f.where}: small-case branch not recognised")
     ctx.ok("C11-PR", f.where, "n <= 3: prime iff n > 1", small[0], f)
     filt = [t for t in txt if t[1] == "return False"]
@@ -883,9 +883,9 @@ GENERIC_FILES = ['permuta/patterns/perm.py', 'permuta/permutils/statistics.py', 
 
 
 def variants():
-    from ..selftest import generic_silent
+    from ..selftest import generic_equiv, generic_silent
 
-    return _variants() + generic_silent(GENERIC_FILES)
+    return _variants() + generic_silent(GENERIC_FILES) + generic_equiv(GENERIC_FILES)
 
 
 def _variants():
